@@ -253,6 +253,7 @@ def explore(fn, cfg, opts):
                ops=0, symops=0, ops_seen={}, violations=[], inconclusive=[], assumptions=[], samples=[],
                solver_used={}, distinct=set(), inputs=[], trivially_true=0)
     pending = [[]]
+    witnessed = {}
     max_viol = int(opts.get("max_violations", 6))
     unconfirmed = unknowns = 0
     while pending:
@@ -291,6 +292,15 @@ def explore(fn, cfg, opts):
                 break
         if lib_exc is not None:
             e.oblige(f"raises:{type(lib_exc).__name__}", False, message=str(lib_exc)[:300])
+        for wl, wc in e.witnesses:
+            if witnessed.get(wl):
+                continue
+            witnessed.setdefault(wl, False)
+            if not T.is_z(wc):
+                witnessed[wl] = witnessed[wl] or bool(wc)
+            else:
+                rw, _ = e.check(wc)
+                witnessed[wl] = witnessed[wl] or rw == "sat"
         res["paths"] += 1
         pending.extend(e.pending)
         if not res["inputs"]:
@@ -373,6 +383,11 @@ def explore(fn, cfg, opts):
         for k, n in e.ops_seen.items():
             res["ops_seen"][k] = res["ops_seen"].get(k, 0) + n
     res["distinct"] = len(res["distinct"])
+    if not pending and not res["violations"] and not res.get("stopped_early"):
+        for wl, ok in witnessed.items():
+            if not ok:
+                res["inconclusive"].append(f"vacuous: reachability witness '{wl}' is unsatisfiable on every path of this configuration")
+    res["witnesses"] = {k: bool(v) for k, v in witnessed.items()}
     return res
 
 
